@@ -30,20 +30,22 @@ try:
             meta["tests_clean"] = t0.stdout.strip().splitlines()[-1:]
 finally:
     sh(f"git -C /repo worktree remove --force {wt}")
-# run the check against /repo with the patch applied
+# run the check against a scratch worktree of /repo's HEAD with the patch applied (/repo itself is never touched)
 if meta.get("patch_applies"):
-    assert sh("git -C /repo status --porcelain").stdout.strip() == "", "repo not clean"
-    assert sh(f"git -C /repo apply {seed}/patch.diff").returncode == 0
+    wt2 = f"/tmp/wt_seedrun_{name}"
+    sh(f"git -C /repo worktree remove --force {wt2}")
+    assert sh(f"git -C /repo worktree add --detach {wt2} HEAD").returncode == 0
     try:
+        assert sh(f"git -C {wt2} apply {seed}/patch.diff").returncode == 0
         t0 = time.time()
-        c = sh(f"cd {V} && ./check {pid} --tier quick")
+        c = sh(f"cd {V} && ./check {pid} --tier quick --repo {wt2}")
         meta["check_exit"] = c.returncode
         meta["check_wall_s"] = round(time.time() - t0, 1)
         meta["check_lines"] = [l[:300] for l in c.stdout.splitlines() if l.startswith(("VIOLATION", pid + ":"))][:6]
     finally:
-        sh("git -C /repo checkout -- .")
+        sh(f"git -C /repo worktree remove --force {wt2}")
     meta["detected"] = meta["check_exit"] == 1
-meta["ran"] = [f"demo.py on clean and patched scratch worktree", f"pytest {' '.join(tests)} on both", f"./check {pid} --tier quick with patch applied to /repo (undone)"]
+meta["ran"] = [f"demo.py on clean and patched scratch worktree", f"pytest {' '.join(tests)} on both", f"./check {pid} --tier quick --repo <scratch worktree with the patch applied>"]
 dst = f"{V}/seeded/{name}"
 os.makedirs(dst, exist_ok=True)
 for f in ("patch.diff", "demo.py", "notes.md"):
